@@ -161,6 +161,10 @@ var routes = ev.Register(&ev.P[momentCase]{
 			return fail("hour object's slot bounds GetMinHm..GetMaxHm vs the moment "+hm+" (branch "+l.GetTimeZhi()+")", lo, hi)
 		}
 		ly := calendar.NewLunarYear(l.GetYear())
+		// the year object is also reached by stepping from another year (a third route to the same facts)
+		if k := []int{0, 12, -10, 1, 25, -61}[(t.D+t.H)%6]; k != 0 && l.GetYear()-k >= 1 && l.GetYear()-k <= 9998 {
+			ly = calendar.NewLunarYear(l.GetYear() - k).Next(k)
+		}
 		for _, p := range yearPairs {
 			if a, b := call(l, p.A), call(ly, p.B); a != b {
 				return fail("Lunar."+p.A+" vs LunarYear."+p.B, a, b)
@@ -209,6 +213,26 @@ var routes = ev.Register(&ev.P[momentCase]{
 			a, b := call(l, n), call(l, n+"ByWholeDay", false)
 			if a != b {
 				return fail("Lunar."+n+" vs ByWholeDay(false)", a, b)
+			}
+		}
+		// the chart's convention switch belongs to the chart: no accessor of the lunar date other than the chart itself
+		// and the deprecated GetBaZi* family (which read the chart) answers differently after it is flipped
+		if t.H == 23 || (t.D+t.Mi)%8 == 0 {
+			l2 := gen.Solar(t).GetLunar()
+			strip := func(d map[string]string) map[string]string {
+				for k := range d {
+					if strings.Contains(k, "GetBaZi") || strings.Contains(k, "GetEightChar") {
+						delete(d, k)
+					}
+				}
+				return d
+			}
+			before := strip(dig.Of(l2, 0))
+			l2.GetEightChar().SetSect(1)
+			after := strip(dig.Of(l2, 0))
+			l2.GetEightChar().SetSect(2)
+			if df := dig.Diff(before, after, 4); df != "" {
+				return fail("accessors of the lunar date before vs after its chart's SetSect(1)", df, "")
 			}
 		}
 		// eight characters: deprecated GetBaZi* family vs the EightChar object under its default sect
@@ -331,22 +355,24 @@ var eightChar = ev.Register(&ev.P[momentCase]{
 	Rule: "generated moments x sect {1,2}; oracle: every derived attribute of each pillar equals the value recomputed from that pillar's own string through the exported tables (five elements, nayin, hidden stems, ten-gods of stem and hidden stems relative to the day stem of the current sect, xun, empty branches), and life stage / TaiXi / TaiYuan / MingGong / ShenGong are functions of their defining inputs over the whole run (two charts with the same inputs report the same value; a twin chart is built for every 23:xx moment: noon of the day whose pillar the sect selects); non-trivial: 23:xx (the sects select different day pillars)",
 	Check: func(c momentCase) error {
 		t := c.T
-		var checkOn func(ec *calendar.EightChar, t ref.DT, sect int) error
+		var checkOn func(ec *calendar.EightChar, t ref.DT, raw, sect int) error
 		check := func(t ref.DT, sect int) error {
 			ec := gen.Solar(t).GetLunar().GetEightChar()
 			defer ec.SetSect(2)
 			// the same object is switched between the conventions: nothing may survive from the previous one
-			for _, sc := range []int{sect, 3 - sect, sect} {
-				if err := checkOn(ec, t, sc); err != nil {
+			// (a value other than 1 and 2 is documented to mean 2 and is part of the walk)
+			odd := []int{0, 3, -1, 4}[(t.D+t.Mi)%4]
+			for _, sc := range [][2]int{{sect, sect}, {odd, 2}, {3 - sect, 3 - sect}, {sect, sect}} {
+				if err := checkOn(ec, t, sc[0], sc[1]); err != nil {
 					return err
 				}
 			}
 			return nil
 		}
-		checkOn = func(ec *calendar.EightChar, t ref.DT, sect int) error {
-			ec.SetSect(sect)
+		checkOn = func(ec *calendar.EightChar, t ref.DT, raw, sect int) error {
+			ec.SetSect(raw)
 			if ec.GetSect() != sect {
-				return fmt.Errorf("%v: SetSect(%d) then GetSect() = %d", t, sect, ec.GetSect())
+				return fmt.Errorf("%v: SetSect(%d) then GetSect() = %d", t, raw, ec.GetSect())
 			}
 			w := fmt.Sprintf("%v/sect%d", t, sect)
 			dayGan := ec.GetDayGan()
